@@ -122,6 +122,16 @@ func readKnown(verifDir string) []knownFinding {
 	return out
 }
 
+// firstErrorFor extracts the first load error reported for the given file.
+func firstErrorFor(errs, file string) string {
+	for _, l := range strings.Split(errs, "\n") {
+		if i := strings.Index(l, file+":"); i >= 0 {
+			return strings.TrimSpace(l[i+len(file)+1:])
+		}
+	}
+	return "?"
+}
+
 func splitFields(s string) []string {
 	var out []string
 	var cur strings.Builder
@@ -210,6 +220,41 @@ func main() {
 	}
 	ev := &evidence{PropertyID: *prop, Tier: *tier, Seed: seed, Level: "model_checking", Coverage: map[string]interface{}{}}
 	eng, err := LoadEngine(*repo, dirs, ov, gowork)
+	// A harness file that no longer type-checks against the current tree (e.g. a
+	// field it inspects was renamed) is dropped and the remaining files are
+	// loaded again, so that one white-box harness does not take the black-box
+	// ones of the same property with it. Dropped files make the run incomplete.
+	var dropped []string
+	for tries := 0; err != nil && tries < 6; tries++ {
+		bad := map[string]bool{}
+		for _, f := range files {
+			if strings.Contains(err.Error(), f.virt+":") {
+				bad[f.virt] = true
+			}
+		}
+		if len(bad) == 0 || len(bad) == len(files) {
+			break
+		}
+		var keep []*harnessFile
+		for _, f := range files {
+			if bad[f.virt] {
+				msg := firstErrorFor(err.Error(), f.virt)
+				fmt.Printf("DROPPED property=%s file=%s: no longer type-checks against the current tree: %s\n", *prop, filepath.Base(f.src), msg)
+				dropped = append(dropped, filepath.Base(f.src)+": "+msg)
+			} else {
+				keep = append(keep, f)
+			}
+		}
+		files = keep
+		ov, dirs, err = buildOverlay(*verifDir, *repo, files)
+		if err != nil {
+			fatal(err)
+		}
+		eng, err = LoadEngine(*repo, dirs, ov, gowork)
+	}
+	if len(dropped) > 0 {
+		ev.Coverage["dropped_harness_files"] = dropped
+	}
 	if err != nil {
 		// harness does not type-check against this tree (or the tree does not build): no verdict
 		fmt.Printf("INCONCLUSIVE property=%s: cannot load/type-check harnesses against the current tree: %v\n", *prop, err)
@@ -564,7 +609,7 @@ func report(eng *Engine, prop, tier string, seed int, specs []*HarnessSpec, resu
 	verdict := "HOLDS"
 	if exit != 0 {
 		verdict = "VIOLATED"
-	} else if !complete {
+	} else if !complete || ev.Coverage["dropped_harness_files"] != nil {
 		verdict = "INCOMPLETE"
 	}
 	fmt.Printf("RESULT property=%s tier=%s verdict=%s harnesses=%d paths=%d instrs=%d queries=%d (sat %d unsat %d unknown %d) solver=%.1fs wall=%.1fs\n",
